@@ -19,8 +19,12 @@ use swimos::agent::{
 pub struct C6Agent {
     c: CommandLane<String>,
     v: ValueLane<i32>,
-    w: ValueLane<i32>,
-    m: MapLane<i32, i32>,
+    /// the external names of these two lanes differ from their field names: the lifecycle is
+    /// labelled with the field names, the runtime addresses the lanes by `w` and `m`
+    #[item(name = "w")]
+    w_lane: ValueLane<i32>,
+    #[item(name = "m")]
+    map_lane: MapLane<i32, i32>,
 }
 
 pub type BoxH = Box<dyn EventHandler<C6Agent> + Send>;
@@ -51,21 +55,21 @@ pub fn compile(cx: Cx, log: &Arc<TruthLog>, h: &H, y: i32) -> BoxH {
             Box::new(cx.effect(move || rec(&log, format!("eff#{}", t))))
         }
         H::SetV(x) => Box::new(cx.set_value(C6Agent::V, val(*x, y))),
-        H::SetW(x) => Box::new(cx.set_value(C6Agent::W, val(*x, y))),
-        H::Upd(k, x) => Box::new(cx.update(C6Agent::M, *k, val(*x, y))),
-        H::Rem(k) => Box::new(cx.remove(C6Agent::M, *k)),
-        H::Clr => Box::new(cx.clear(C6Agent::M)),
+        H::SetW(x) => Box::new(cx.set_value(C6Agent::W_LANE, val(*x, y))),
+        H::Upd(k, x) => Box::new(cx.update(C6Agent::MAP_LANE, *k, val(*x, y))),
+        H::Rem(k) => Box::new(cx.remove(C6Agent::MAP_LANE, *k)),
+        H::Clr => Box::new(cx.clear(C6Agent::MAP_LANE)),
         H::GetV(t) => {
             let (log, t) = (log.clone(), *t);
             Box::new(cx.get_value(C6Agent::V).and_then(move |s: i32| cx.effect(move || rec(&log, format!("getv#{}={}", t, s)))))
         }
         H::GetW(t) => {
             let (log, t) = (log.clone(), *t);
-            Box::new(cx.get_value(C6Agent::W).map(move |s: i32| rec(&log, format!("getw#{}={}", t, s))))
+            Box::new(cx.get_value(C6Agent::W_LANE).map(move |s: i32| rec(&log, format!("getw#{}={}", t, s))))
         }
         H::GetM(t) => {
             let (log, t) = (log.clone(), *t);
-            Box::new(cx.get_map(C6Agent::M).and_then(move |s: HashMap<i32, i32>| cx.effect(move || rec(&log, format!("getm#{}={:?}", t, sorted(&s))))))
+            Box::new(cx.get_map(C6Agent::MAP_LANE).and_then(move |s: HashMap<i32, i32>| cx.effect(move || rec(&log, format!("getm#{}={:?}", t, sorted(&s))))))
         }
         H::Bind(t, g, body) => {
             let (log, t, body) = (log.clone(), *t, body.clone());
@@ -74,11 +78,11 @@ pub fn compile(cx: Cx, log: &Arc<TruthLog>, h: &H, y: i32) -> BoxH {
                     let l = log.clone();
                     cx.effect(move || rec(&l, format!("bindv#{}={}", t, s))).followed_by(compile(cx, &log, &body, s))
                 })),
-                G::W => Box::new(cx.get_value(C6Agent::W).and_then(move |s: i32| {
+                G::W => Box::new(cx.get_value(C6Agent::W_LANE).and_then(move |s: i32| {
                     let l = log.clone();
                     cx.effect(move || rec(&l, format!("bindw#{}={}", t, s))).followed_by(compile(cx, &log, &body, s))
                 })),
-                G::E => Box::new(cx.get_entry(C6Agent::M, 1).and_then(move |s: Option<i32>| {
+                G::E => Box::new(cx.get_entry(C6Agent::MAP_LANE, 1).and_then(move |s: Option<i32>| {
                     let l = log.clone();
                     cx.effect(move || rec(&l, format!("binde#{}={:?}", t, s))).followed_by(compile(cx, &log, &body, s.unwrap_or(-1)))
                 })),
@@ -129,8 +133,8 @@ impl C6Lifecycle {
     pub fn on_stop(&self, context: HandlerContext<C6Agent>) -> impl EventHandler<C6Agent> {
         let log = self.log.clone();
         let epilogue = context.get_value(C6Agent::V).and_then(move |v: i32| {
-            context.get_value(C6Agent::W).and_then(move |w: i32| {
-                context.get_map(C6Agent::M).and_then(move |m: HashMap<i32, i32>| context.effect(move || rec(&log, format!("final(v={},w={},m={:?})", v, w, sorted(&m)))))
+            context.get_value(C6Agent::W_LANE).and_then(move |w: i32| {
+                context.get_map(C6Agent::MAP_LANE).and_then(move |m: HashMap<i32, i32>| context.effect(move || rec(&log, format!("final(v={},w={},m={:?})", v, w, sorted(&m)))))
             })
         });
         self.slot(context, STOP, "stop".to_string()).followed_by(epilogue)
@@ -151,27 +155,27 @@ impl C6Lifecycle {
         self.slot(context, V_SET, format!("v.on_set(new={},prev={:?})", new, prev))
     }
 
-    #[on_event(w)]
+    #[on_event(w_lane)]
     pub fn on_event_w(&self, context: HandlerContext<C6Agent>, new: &i32) -> impl EventHandler<C6Agent> {
         self.slot(context, W_EV, format!("w.on_event(new={})", new))
     }
 
-    #[on_set(w)]
+    #[on_set(w_lane)]
     pub fn on_set_w(&self, context: HandlerContext<C6Agent>, new: &i32, prev: Option<i32>) -> impl EventHandler<C6Agent> {
         self.slot(context, W_SET, format!("w.on_set(new={},prev={:?})", new, prev))
     }
 
-    #[on_update(m)]
+    #[on_update(map_lane)]
     pub fn on_update_m(&self, context: HandlerContext<C6Agent>, map: &HashMap<i32, i32>, key: i32, prev: Option<i32>, new: &i32) -> impl EventHandler<C6Agent> {
         self.slot(context, M_UPD, format!("m.on_update(k={},prev={:?},new={},map={:?})", key, prev, new, sorted(map)))
     }
 
-    #[on_remove(m)]
+    #[on_remove(map_lane)]
     pub fn on_remove_m(&self, context: HandlerContext<C6Agent>, map: &HashMap<i32, i32>, key: i32, prev: i32) -> impl EventHandler<C6Agent> {
         self.slot(context, M_REM, format!("m.on_remove(k={},prev={},map={:?})", key, prev, sorted(map)))
     }
 
-    #[on_clear(m)]
+    #[on_clear(map_lane)]
     pub fn on_clear_m(&self, context: HandlerContext<C6Agent>, before: HashMap<i32, i32>) -> impl EventHandler<C6Agent> {
         self.slot(context, M_CLR, format!("m.on_clear(before={:?})", sorted(&before)))
     }
